@@ -115,8 +115,7 @@ func (e *Exec) symBytes(nm string, n int) []*Term {
 	for i := range bs {
 		bs[i] = e.newIntVar(fmt.Sprintf("%s_%d", nm, i), niByte)
 	}
-	e.namedInfo = append(e.namedInfo, NamedVar{Name: nm, Kind: "bytes", N: n})
-	e.env["bytes:"+nm] = bs
+	e.namedInfo = append(e.namedInfo, NamedVar{Name: nm, Kind: "bytes", N: n, Bytes: bs})
 	return bs
 }
 
